@@ -41,6 +41,10 @@ def finalHeaders (headers : List (Bytes × Bytes)) (len : Nat) (pkg : Csp.Header
 def wire (r : Resp) (isHead : Bool) (pkg : Csp.Headers → Csp.Headers) : Bytes :=
   headBytes r.status r.reason (finalHeaders r.headers r.body.length pkg) ++ (if isHead then [] else r.body)
 
+/-- what the strict client reads back: the same status, reason and headers; the body unless HEAD -/
+def received (r : Resp) (isHead : Bool) (pkg : Csp.Headers → Csp.Headers) : Resp :=
+  ⟨r.status, r.reason, finalHeaders r.headers r.body.length pkg, if isHead then [] else r.body⟩
+
 /-! ### a strict HTTP/1 client -/
 
 /-- a line: everything before the first CR, which must be followed by LF -/
